@@ -112,6 +112,7 @@ def write_traces(path, by, ids):
 _RES = re.compile(r'<<"RESULT", ([\d, -]+)>>')
 _END = re.compile(r'<<"END", ([\d, -]+)>>')
 _STUCK = re.compile(r'<<"STUCK", (-?\d+)>>')
+_SKIP = re.compile(r'<<"SKIPPED", (-?\d+)>>')
 
 
 def judge(trace_path, atomic, impl="intended", timeout=1200):
@@ -123,7 +124,8 @@ def judge(trace_path, atomic, impl="intended", timeout=1200):
     res = {}
 
     def g(i):
-        return res.setdefault(i, dict(fail=set(), dpos=0, notq=False, noobs=False, ended=False, stuck=False, nobs=0))
+        return res.setdefault(i, dict(fail=set(), dpos=0, notq=False, noobs=False, ended=False, stuck=False,
+                                      skipped=False, nobs=0))
     for m in set(_RES.findall(r.out)):
         tid, pos, dpos, obs, q, a, b, c, d = [int(x) for x in m.split(",")]
         e = g(tid)
@@ -146,6 +148,8 @@ def judge(trace_path, atomic, impl="intended", timeout=1200):
             e["fail"].add("b")
     for m in set(_STUCK.findall(r.out)):
         g(int(m))["stuck"] = True
+    for m in set(_SKIP.findall(r.out)):
+        g(int(m))["skipped"] = True
     return res, r
 
 
@@ -240,9 +244,9 @@ def run(pid, tier, seed, replay):
     else:
         exp = {"forced": dict(mm=3, mc=2, de=2, te=2, ms=12),
                "forced-preexisting": dict(mm=3, mc=2, de=2, te=2, ms=11, pre="TRUE")}
-        free = {"interleaved": dict(atomic="FALSE", att=2, ms=9, mm=3),
-                "interleaved-preexisting": dict(atomic="FALSE", att=2, ms=7, pre="TRUE"),
-                "interleaved-total-teardown-failure": dict(atomic="FALSE", att=2, te=3, ms=8, mc=2)}
+        free = {"interleaved": dict(atomic="FALSE", att=2, ms=8, mm=3),
+                "interleaved-preexisting": dict(atomic="FALSE", att=2, ms=6, pre="TRUE"),
+                "interleaved-total-teardown-failure": dict(atomic="FALSE", att=2, te=3, ms=7, mc=2)}
     futs = {}
     for name, kw in exp.items():
         futs[name] = pool.submit(vlib.tlc, SPEC, "MC_DeployManager", "x.cfg", workers=4 if quick else 6, timeout=1500,
@@ -266,7 +270,7 @@ def run(pid, tier, seed, replay):
     if not scripts:
         raise vlib.Inconclusive("no scripts exported from the forced-schedule model")
     total_scripts = len(scripts)
-    cap = 2000 if quick else 40000
+    cap = 2000 if quick else 12000
     exhaustive = True
     if len(scripts) > cap:
         # always keep the small complete configuration (no pre-existing deployment), sample the rest
@@ -303,7 +307,7 @@ def run(pid, tier, seed, replay):
                 fh.write(json.dumps(s) + "\n")
         rfuts.append((op, pool.submit(run_vh, vh, ["replay", "-v", "-in", ip, "-out", op], 2400)))
     # free-running executions
-    nfree_p, nfree_n = (4, 150) if quick else (12, 2500)
+    nfree_p, nfree_n = (4, 150) if quick else (12, 1000)
     ffuts = []
     for k in range(nfree_p):
         op = os.path.join(work, "f%d.ndjson" % k)
@@ -354,7 +358,10 @@ def run(pid, tier, seed, replay):
     groups = {}
     for i, recs in by.items():
         v = verd.get(i)
-        if v is None or not v["ended"] or v["stuck"] or v["noobs"]:
+        if v is not None and v["skipped"]:
+            inconclusive.append("script %s %s: skipped (the process had given up)" % (i, " ".join(sid[i]["stim"])))
+            continue
+        if v is None or not v["ended"] or v["noobs"] or (v["stuck"] and not v["fail"]):
             inconclusive.append("script %s %s: %s" % (i, " ".join(sid[i]["stim"]), "stuck" if v and v["stuck"] else
                                                       "no verdict / observation unavailable"))
             continue
@@ -375,7 +382,7 @@ def run(pid, tier, seed, replay):
     fgroups = {}
     for key, recs in fby.items():
         v = fverd.get(key)
-        if v is None or not v["ended"] or v["stuck"] or v["noobs"]:
+        if v is None or not v["ended"] or v["noobs"] or (v["stuck"] and not v["fail"]):
             inconclusive.append("free run %s: %s" % (key, recs[0]["script"]))
             continue
         if v["dpos"] or v["notq"]:
@@ -400,8 +407,10 @@ def run(pid, tier, seed, replay):
         log("DRIFT %d recorded events had no causal predecessor in the observation" % forced_order)
 
     st = selftest(by, verd, work) if by else {"ok": False, "reason": "no replays"}
-    if inconclusive:
+    if inconclusive and not violations:
         raise vlib.Inconclusive("%d executions without a verdict, e.g. %s" % (len(inconclusive), inconclusive[:3]))
+    if inconclusive:
+        log("%d executions without a verdict (stuck / skipped), e.g. %s" % (len(inconclusive), inconclusive[:2]))
     if not st["ok"] and not violations and not drift:
         raise vlib.Inconclusive("binding self-test failed: %s" % st)
 
@@ -433,6 +442,7 @@ def run(pid, tier, seed, replay):
                            "each replayed on the real code" + ("" if exhaustive else " (seeded sample above the cap)") +
                            "; the interleaved models are exhaustive in TLC only; free-running executions are samples",
         "drift_steps": len(drift) + forced_order,
+        "executions_without_verdict": len(inconclusive),
         "binding_selftest": st,
         "configs": configs,
         "clauses_failed": {k: len(v) for k, v in groups.items()},
